@@ -149,4 +149,71 @@ Proof.
   eapply P; eauto.
 Qed.
 
+(* ---------- remove_file ---------- *)
+Lemma pfp_set_file_membership_nil e : pfp (set_file_membership T e []).
+Proof.
+  unfold set_file_membership.
+  fr_tac ltac:(first [ split; [reflexivity | right; reflexivity] | split; [reflexivity | left; reflexivity] ]).
+Qed.
+
+Lemma m_remove_file_dfp m f : DFp (m_remove_file T m f).
+Proof.
+  intros w r w' I D H. unfold m_remove_file in H.
+  wrun_ro H ltac:(exact D).
+  wstepn H u Es.
+  match goal with Hx : nth_opt (w_models w) (N.to_nat m) = Some ?x0, Hi : index_of _ _ = Some ?k |- _ =>
+    pose proof (stp_set_model_same m x0 (fun y => set_mfiles y (swap_remove_at (m_files y) k)) (fun y => eq_refl)
+                  _ _ _ Hx Es) as ST end.
+  apply set_model_inv in Es as (_ & ->).
+  match type of H with _ ?wa = _ => set (w1 := wa) in * end.
+  assert (I1 : TreeInv w1) by (eapply TreeInv_same_tree; eauto).
+  assert (D1 : DF w1).
+  { assert (Hnodes : forall z, w_nodes w1 z = w_nodes w z) by reflexivity.
+    exact (DF_pframe _ _ (proj1 I) (frame_nodes_eq pfNR pfNN pfNR_refl _ _ Hnodes) D). }
+  clearbody w1.
+  match type of H with ?mm _ = _ => assert (P : DFp mm) end.
+  { destruct (is_empty _).
+    - apply DFp_bind; [apply Pres_ro; ro_tac | apply DFp_ro; ro_tac |]. intros rn.
+      apply DFp_bind.
+      + induction (n_content rn) as [|[c|d] l IHl]; [apply Pres_ro; ro_tac | | exact IHl].
+        apply Pres_bind; [apply Pres_try, Pres_e_remove | intros; exact IHl].
+      + induction (n_content rn) as [|[c|d] l IHl]; [apply DFp_ro; ro_tac | | exact IHl].
+        apply DFp_bind; [apply Pres_try, Pres_e_remove | apply DFp_try, DF_e_remove | intros; exact IHl].
+      + intros _. apply DFp_bind; [apply Pres_stp, stp_set_file_membership | apply DFp_pfp, pfp_set_file_membership_nil |].
+        intros _. apply DFp_pfp. pf_tac.
+    - apply DFp_bind; [apply Pres_try, Pres_e_remove_from_file | apply DFp_try, e_remove_from_file_dfp |].
+      intros _. apply DFp_ro. ro_tac. }
+  eapply P; eauto.
+Qed.
+
+(* ---------- new_model ---------- *)
+Lemma new_model_df w r w' : Core w -> DF w -> new_model T root_attrs w = Val (r, w') -> DF w'.
+Proof.
+  intros C D H. unfold new_model in H.
+  destruct (et_new T (autosar_element T)) as [ty|s|]; destruct (elem T (autosar_element T)) as [ed|s'|];
+    try discriminate.
+  injection H as <- <-. eapply (DF_pframe w); [exact C | | exact D].
+  pose proof (core_fresh_none _ C) as Hf. apply skel_none in Hf. split.
+  - intros i Hi. cbn. unfold upd. destruct (i =? w_next w); congruence.
+  - intros i n' Hn'. cbn in Hn'. unfold upd in Hn'. destruct (i =? w_next w) eqn:E.
+    + apply N.eqb_eq in E. subst i. injection Hn' as <-. right. split; auto. reflexivity.
+    + left. exists n'. split; auto. apply pfNR_refl.
+Qed.
+
+(* ---------- set_item_name ---------- *)
+Lemma set_item_name_pframe h new_name w r w' :
+  e_set_item_name T check_fn LATEST h new_name w = Val (r, w') -> pframe w w'.
+Proof.
+  intros H. unfold e_set_item_name in H.
+  wrun_ro H ltac:(apply pframe_refl).
+  match type of H with context [fix_identifiables ?mm ?op ?np] =>
+    set (m0 := mm) in *; set (op0 := op) in *; set (np0 := np) in * end.
+  match type of H with ?rest ?wa = _ => refine ((_ : pfp rest) wa _ _ H) end.
+  apply frp_bind; [ fr_side .. | apply pfp_raw_set_cdata | ]. intros _.
+  apply frp_bind; [ fr_side .. | apply pfp_fix_identifiables | ]. intros _.
+  apply frp_bind; [ fr_side .. | apply frp_ro; [ fr_side .. | ro_tac ] | ]. intros x.
+  change (pfp (each_loop (rename_ref_body m0 op0 np0) (map fst (m_origins x)))).
+  apply pfp_each_loop. intros a'. apply pfp_rename_ref_body.
+Qed.
+
 End DF6.
